@@ -9,7 +9,7 @@ LEDGER = [
     "6. usize is 64 bits; arithmetic overflow is an error in both profiles",
     "7. with_capacity/reserve may panic or abort (capacity overflow, OOM): partial correctness",
     "8. Drop, deallocation, mem::forget and unwinding are not modelled",
-    "9. extraction rules R1-R19 preserve meaning (identity check re-derives every function token-for-token on each run); R16 materialises libcore's provided Iterator::for_each as its defining loop, R17 routes size_hint of a caller iterator through an identity wrapper whose result is unconstrained, R18 beta-reduces closure literals passed to Option::map/or_else in tail position, R19 turns a pattern parameter of a closure into a let",
+    "9. extraction rules R1-R20 preserve meaning (identity check re-derives every function token-for-token on each run); R16 materialises libcore's provided Iterator::for_each as its defining loop, R17 routes size_hint of a caller iterator through an identity wrapper whose result is unconstrained, R18 beta-reduces closure literals passed to Option::map/or_else in tail position, R19 turns a pattern parameter of a closure into a let, R20 materialises Iterator::all over a closure literal as its defining short-circuit loop",
     "10. Verus, Z3, rustc 1.98.1 are trusted",
     "11. production cfg only: cfg(test)/miri/rayon/serde items are not verified",
 ]
@@ -76,12 +76,12 @@ PROPS = {
          "note": "hashbrown's own debug assertions are modelled as preconditions; the reflect_remove ordering assertion is not visible to Verus"},
  "C13": {"level": "proof", "technique": "Verus contracts on the HashSet element operations (one-line delegations) over the map/raw-layer contracts they rest on",
          "claim": "Unbounded proof that HashSet::{insert, replace, remove, take, clear, len, is_empty, reserve, try_reserve, shrink_to*, get_or_insert, iter, drain, into_iter} have the set effect on the underlying table (cardinality changes by exactly the reported result, contents conserved, invariants kept), resting on the C01 clauses of the raw and map functions they delegate to (those clauses also carry the label C13), and that intersection/difference iterate and probe the right operands and terminate. " + V,
-         "note": "set algebra (union/intersection/difference/symmetric_difference, is_subset/is_disjoint, ==, operators) is built from iterator adapters, outside Verus' subset: not decided here",
-         "not_decided": ["union / intersection / difference / symmetric_difference / is_subset / is_superset / is_disjoint / == and the operator forms (iterator adapters)", "membership results (values behind bucket pointers)"]},
+         "note": "is_disjoint/is_subset/is_superset/== are verified on their real bodies (R20) for memory safety, termination and what cardinality decides; their element-wise meaning, union/symmetric_difference (chain) and the operator forms are not decided by Verus (bounded Kani harnesses)",
+         "not_decided": ["element-wise meaning of is_subset / is_superset / is_disjoint / ==", "union / symmetric_difference and the operator forms (iterator adapters)", "membership results (values behind bucket pointers)"]},
  "C14": {"level": "proof", "technique": "Verus: every read-only observer of the raw layer (len, find/get, iter, size_hint) is specified as a function of the abstract contents only",
          "claim": "Unbounded proof that len() is the sum over both tables, that a lookup consults the main table and then the old table, that iter() covers exactly the occupied buckets of both tables and that the cached iterator agrees with the old table after every operation -- i.e. what the read-only API reports does not depend on which table holds an element or on how the state was reached. " + V,
-         "note": "PartialEq::eq and Debug use iterator adapters (Iterator::all, debug_map().entries()) and are outside Verus' subset; dependence on hasher state is not decided",
-         "not_decided": ["PartialEq::eq / Debug bodies", "independence from hasher state", "reflexivity/symmetry/transitivity of =="]},
+         "note": "PartialEq::eq of map and set is verified on its real body (R20) for safety, termination and `== implies equal len`; Debug uses debug_map().entries() and is outside Verus' subset; dependence on hasher state is not decided",
+         "not_decided": ["element-wise half of PartialEq::eq; Debug bodies", "independence from hasher state", "reflexivity/symmetry/transitivity of =="]},
 }
 for _p in PROPS.values():
     _p.setdefault("assumptions", []); _p.setdefault("bounded", []); _p.setdefault("not_decided", [])
